@@ -50,7 +50,9 @@ def run(ctx):
     # and every item is buffered (how exactly the cut is made is C06's business)
     _RR2.bounded_selection(_Only(ctx, ("ctor-roles", "every-item-buffered", "anchor")), "R06.a")
     _RR2.limit_provenance(ctx, "R06.a")
-    return info("R06.a: the bounded selection keeps `limit` items at full width (a store no larger than the limit loses no hit to the cut). R14.l: hits made by a split or a joined spelling pass hit_matches whatever the matches look like (abstract run). R14.k: add_record really adds the record to the addressed store on every call (the registry API is not exercised by the repository's tests). R14.j: Word::dist is start(later) - end(earlier) in both orders (region-wise), the stem is computed from the word's own characters, a hit carries the whole title. "
+    from . import r_word as _RW2
+    _RW2.no_shadowed_defaults(ctx, "R14.m")
+    return info("R14.m: no impl overrides a provided method of the crate's traits (Word::len / dist / is_function, LimitSort). R06.a: the bounded selection keeps `limit` items at full width (a store no larger than the limit loses no hit to the cut). R14.l: hits made by a split or a joined spelling pass hit_matches whatever the matches look like (abstract run). R14.k: add_record really adds the record to the addressed store on every call (the registry API is not exercised by the repository's tests). R14.j: Word::dist is start(later) - end(earlier) in both orders (region-wise), the stem is computed from the word's own characters, a hit carries the whole title. "
                 "Necessary constants for split/joined spellings at the L=3 worst case: length gate accepts 1-3/4, "
                 "cost(NotAlpha)/4 passes the DL gate, Jaccard gate accepts 1/2, and characters without a language "
                 "class that are not alphabetic get the NotAlpha class (so the separator is charged the NotAlpha cost); R14.e: join attempts are skipped only when the other word is strictly shorter than first word + gap; R14.f/g: linear forms of the split halves and of the joined word equal the derived formulas.")
